@@ -376,6 +376,10 @@ def prove_slot_released(src_root, ex: Explorer):
     from contracts import C06
     C06.prove_manage_assigns(src_root, ex, liveness=True)
     C06.prove_done_callbacks(src_root, ex)
+    # the other half: while a task - finished or not - sits in a slot the selection leaves the transfer alone, so the handle of a running
+    # task is never overwritten, nor cleared by the done-callback of an earlier task (an upload nobody can abort keeps its slot in fact
+    # while the state-based count gives the slot to the next user)
+    C06.prove_slot_selection(src_root, ex)
     for ob in ex.obligations:
         if ob.name.startswith('C06.'):
             ob.name = 'C05.slot-released.' + ob.name[4:]
@@ -393,6 +397,13 @@ def prove_relies_more(src_root, ex: Explorer):
     C06.prove_cancel_all(src_root, ex)
     C06.prove_peer_queue_leaves_processing(src_root, ex)
     C15.prove_transfer_reason(src_root, ex, _sr('C15'))
+    # (d) the ranking reads status and privileges from the user object: every GetUserStatus / GetUserStats / privilege notification is
+    #     folded into that object, also one that changes the privileges only (C19 user handlers)
+    from contracts import C19
+    C19.prove_user_handlers(src_root, ex)
+    for ob in ex.obligations:
+        if ob.name.startswith('C19.'):
+            ob.name = 'C05.relies.user-view.' + ob.name[4:]
     for ob in ex.obligations:
         if ob.name.startswith('C06.'):
             ob.name = 'C05.relies.' + ob.name[4:]
